@@ -28,10 +28,13 @@ Streams (all from chk.rng):
           build time, or again in every `elaborate()`), as the top-level object, or returned by an Elaboratable's
           `elaborate()`.  In fresh interpreters under 2 (quick) / 6 hash seeds the same objects are converted three
           times and a design rebuilt from the seed once; all texts (or exceptions, addresses masked) must be one.
-          Differences on the unchanged tree are classified F37 (origins grow: DuplicateElaboratable) / F36 (stale
-          ClockDomain of an implicitly created domain kept by the stored Fragment) by the structure of the outcome;
-          two fixed witnesses (one per finding) are converted on every run.
-  sim     generated designs + testbenches (set/get/tick/delay/memory access, background testbench, process,
+          This stream found F36 (a stored Fragment kept the ClockDomain an earlier elaboration created for an implicit
+          domain) and F37 (`origins` of a Fragment returned by an Elaboratable grew: DuplicateElaboratable), both fixed
+          in /repo; a difference of either shape is labelled with its class in the replay, and the two minimal
+          witnesses (one per finding) are converted on every run.
+  sim     generated designs (incl. reset-less state: Signal(reset_less=True) registers and chains, FFSynchronizer,
+          AsyncFIFO pointers; optionally the domain's own reset asserted during the run)
+          + testbenches (set/get/tick/delay/memory access, background testbench, process,
           clocks): run (fully, `run_until`, or k x `advance`) -> dump the engine's object graph -> `reset()`
           -> dump; compared with a freshly constructed simulator and with the Model's `reset` / `initial`;
           then the rerun's observation trace and per-`advance()` progress are compared with the fresh
@@ -380,10 +383,12 @@ def convert_same_twice(seed):
 # top-level object, or returned by an Elaboratable's `elaborate()`.  The same objects are converted three
 # times and a design rebuilt from the seed once: the four texts must be byte-identical.
 
-F37 = "F37"     # an Elaboratable whose elaborate() returns a stored Fragment: Fragment.get prepends it to the Fragment's
-                # `origins` on every elaboration, the second conversion raises DuplicateElaboratable
-F36 = "F36"     # a stored Fragment keeps the ClockDomain objects propagated into it (or created in it) by the first
-                # elaboration: F32's mechanism on plain Fragments (the repair of F32 covers Instance/IOBufferInstance)
+# both findings are fixed in /repo (bfe88ac, 2dffbb9; reproducers prelim/repro/c09_reused_fragment_*.py): the classes only label
+# a replay, a difference of either shape is a violation like any other
+F37 = "F37"     # an Elaboratable whose elaborate() returns a stored Fragment: Fragment.get prepended it to the Fragment's
+                # `origins` on every elaboration, the second conversion raised DuplicateElaboratable
+F36 = "F36"     # a stored Fragment kept the ClockDomain objects propagated into it (or created in it) by the first
+                # elaboration: F32's mechanism on plain Fragments (the repair of F32 covered Instance/IOBufferInstance)
 
 REFRAG_DOMS = ["sync", "pix", "aux", "fast"]
 REFRAG_WITNESSES = {-1: "witness-origins", -2: "witness-stale-domain"}
@@ -1426,7 +1431,56 @@ def build_sim(case):
                      rp.addr.eq(inputs[1][2:]), mr.eq(rp.data)]
     py = Signal(4, name="py")           # written by the process only
     watch = inputs + combT + allregs + [mr, py]
+    # reset-less state (decided from the design seed by a generator of its own, so that everything above is what it
+    # was before this part existed): registers with reset_less=True, FFSynchronizer chains (reset-less by default),
+    # AsyncFIFO pointers; optionally the domain's own reset is asserted while the design runs.  `Simulator.reset()`
+    # must bring all of them back to their initial values.
+    extra, rl_prog, rl_meta = [], None, {}
+    rl = random.Random(f"resetless-{case['design_seed']}")
+    if not case.get("witness") and rl.random() < 0.8:
+        from amaranth.lib.cdc import FFSynchronizer
+        from amaranth.lib.fifo import AsyncFIFO
+        doms = list(regs)
+        cds = {}
+        want_rst = rl.random() < 0.5
+        if want_rst:
+            m.domains.sync = cds["sync"] = ClockDomain("sync", async_reset=rl.random() < 0.25)
+        for d in doms:
+            n = rl.randint(1, 2)
+            chain = [Signal(4, name=f"rl_{d}{k}", reset_less=True, init=rl.randint(0, 15)) for k in range(n)]
+            m.d[d] += chain[0].eq(chain[0] + 1 + (inputs[0] if rl.random() < 0.5 else 0))
+            for a, b in zip(chain, chain[1:]):
+                m.d[d] += b.eq(a ^ regs[d][0][:1])
+            extra += chain
+        rl_meta["registers"] = len(extra)
+        if rl.random() < 0.5:
+            so = Signal(len(allregs[0]) if not allregs[0].shape().signed else 2, name="ffs_o")
+            src = allregs[0] if not allregs[0].shape().signed else inputs[1][:2]
+            m.submodules.ffs = FFSynchronizer(src, so, o_domain=rl.choice(doms), init=rl.randint(0, (1 << len(so)) - 1),
+                                              stages=rl.randint(2, 3))
+            extra.append(so)
+            rl_meta["ffsynchronizer"] = True
+        if rl.random() < 0.3:
+            fifo = AsyncFIFO(width=4, depth=rl.choice([2, 4, 8]), w_domain="sync", r_domain=doms[-1])
+            m.submodules.afifo = fifo
+            m.d.comb += [fifo.w_data.eq(inputs[2]), fifo.w_en.eq(inputs[0][0] | ~inputs[1][1]), fifo.r_en.eq(inputs[1][0])]
+            extra += [fifo.r_data, fifo.r_rdy, fifo.w_rdy, fifo.r_level, fifo.w_level]
+            rl_meta["asyncfifo"] = True
+        rl_prog = []
+        for _ in range(rl.randint(3, 9)):
+            r = rl.random()
+            if r < 0.45:
+                rl_prog.append(("tick", rl.choice(doms)))
+            elif r < 0.8:
+                rl_prog.append(("obs",))
+            elif want_rst:
+                rl_prog.append(("rst", rl.randint(0, 1)))
+            else:
+                rl_prog.append(("set", rl.randint(0, 2), rl.randint(0, 15)))
+        rl_prog += [("tick", "sync"), ("obs",)]
+        rl_meta["domain_reset_asserted"] = bool(want_rst and any(op == ("rst", 1) for op in rl_prog))
     sim = Simulator(m)
+    sim._verif_resetless = rl_meta
     sim.add_clock(Period(fs=case["period"]), phase=None if case["phase"] is None else Period(fs=case["phase"]))
     if case["two_clocks"]:
         sim.add_clock(Period(fs=case["period2"]), phase=None if case["phase2"] is None else Period(fs=case["phase2"]),
@@ -1458,6 +1512,18 @@ def build_sim(case):
         return tb
     for k, prog in enumerate(case["tb"]):
         sim.add_testbench(make_tb(k, prog))
+    if rl_prog is not None:
+        async def tb_rl(ctx):
+            for idx, op in enumerate(rl_prog):
+                if op[0] == "tick":
+                    await ctx.tick(op[1])
+                elif op[0] == "obs":
+                    trace.append((200, idx, ctx.elapsed_time().femtoseconds, [int(ctx.get(x)) for x in extra]))
+                elif op[0] == "rst":
+                    ctx.set(cds["sync"].rst, op[1])
+                else:
+                    ctx.set(inputs[op[1]], op[2])
+        sim.add_testbench(tb_rl)
     if case["bg"] is not None:
         prog = case["bg"]
 
@@ -1621,6 +1687,10 @@ def _sim_case_real(case, limit_s):
                 sim.advance()
         out["trace1"] = [list(t) for t in trace]
         s1, order = dump_engine(sim, ids)
+        from amaranth.sim.pysim import _PySignalState
+        out["resetless"] = dict(sim._verif_resetless,
+                                away_from_init=sum(1 for x in sim._engine._state.slots if isinstance(x, _PySignalState)
+                                                   and x.signal.reset_less and x.curr != x.signal.init))
         sim.reset()
         s2, _ = dump_engine(sim, ids, proc_order=order)
         out["s1"], out["s2"] = s1, s2
@@ -1681,6 +1751,14 @@ def judge_sim(chk, r, m, tag="sim"):
     chk.hist(f"{tag}: stop mode", r["stop"][0])
     chk.hist(f"{tag}: dirty components before reset", dirty)
     chk.hist(f"{tag}: active triggers at reset", len(s1["active"]))
+    rlm = r.get("resetless") or {}
+    chk.hist(f"{tag}: reset-less signals away from their initial value when reset() is called", min(rlm.get("away_from_init", 0), 6))
+    for key in ("registers", "ffsynchronizer", "asyncfifo"):
+        if rlm.get(key):
+            chk.hist(f"{tag}: reset-less state in the design", key)
+    if not any(rlm.get(key) for key in ("registers", "ffsynchronizer", "asyncfifo")):
+        chk.hist(f"{tag}: reset-less state in the design", "none")
+    chk.hist(f"{tag}: the domain's own reset is asserted during the run", bool(rlm.get("domain_reset_asserted")))
     residue = _fresh_equiv(s2, s0)
     f21_residue = residue in ("active", "delta") and _fresh_equiv(dict(s2, active=[], delta=0), s0) == ""
     # 1. the property's observables: traces and per-advance() progress of the rerun vs a fresh simulator
